@@ -28,8 +28,15 @@ def case_strategy(draw, tier="quick"):
         nodes.append({"k": "union", "u": list(range(n_ent)), "p": {}, "t": "E"})
         src = len(nodes) - 1
     kind = draw(st.sampled_from(["rate_limit", "rate_limit", "rate_limit", "delay"]))
-    iv = draw(st.sampled_from([0.25, 0.5, 1.0, 2.0]))
-    nodes.append({"k": kind, "u": [src], "p": {"i": iv}, "t": "E"})
+    iv = draw(st.sampled_from([0.25, 0.5, 1.0, 2.0, 1.5]))
+    # the interval may be given as a duration string (documented: anything pandas.Timedelta reads)
+    spell = draw(st.sampled_from([None, None, "str"]))
+    ivs = {0.25: ["250ms", "0.25s"], 0.5: ["500ms", "0.5s"], 1.0: ["1s", "1000ms"],
+           2.0: ["2s", "1s 1000ms"], 1.5: ["1.5s", "1s 500ms", "1500ms"]}
+    p_ = {"i": iv}
+    if spell:
+        p_["i_str"] = draw(st.sampled_from(ivs[iv]))
+    nodes.append({"k": kind, "u": [src], "p": p_, "t": "E"})
     nodes.append({"k": "sink", "u": [len(nodes) - 1], "p": {}, "t": None})
     spec = {"nodes": nodes, "fb": None}
     mode = draw(st.sampled_from(["sync", "sync", "fut", "coro"]))
@@ -51,8 +58,11 @@ def case_strategy(draw, tier="quick"):
         i = draw(st.integers(0, len(acts) - 1))
         j = draw(st.integers(i, len(acts)))
         detach = [i, j]
+    # start() is propagated upstream from any node and must be harmless on a running pipeline
+    starts = sorted(draw(st.sets(st.integers(0, max(len(acts) - 1, 0)), max_size=2))) \
+        if draw(st.integers(0, 2)) == 0 else []
     return {"spec": spec, "cmodes": {str(len(nodes) - 1): mode}, "actions": acts,
-            "detach": detach}
+            "detach": detach, "starts": starts}
 
 
 def execute(case):
@@ -62,8 +72,9 @@ def execute(case):
     sink = len(nodes) - 1
     node = sink - 1
     step_hook = None
-    if case.get("detach"):
-        i0, j0 = case["detach"]
+    if case.get("detach") or case.get("starts"):
+        i0, j0 = case.get("detach") or (-1, -1)
+        starts = set(case.get("starts") or [])
 
         def step_hook(k, built):
             n = built.nodes[node]
@@ -72,6 +83,8 @@ def execute(case):
                 n.destroy()
             if k == j0 and not n.upstreams:
                 up.connect(n)
+            if k in starts:
+                built.nodes[sink].start()
     run = schedule.execute(case, consumer_modes=cm, step_hook=step_hook)
     ev = run.log.events
     kind = nodes[node]["k"]
